@@ -42,7 +42,16 @@ CheckClause(c) ==
     [] c.target_kind = "file" /\ MustCheckFile(c.target, PSet(c)) /\ got # {c.target} -> "CheckLooksAtNamedFile"
     [] ~c.same_as_scan -> "CheckListsWhatScanMeasures"
     [] OTHER -> "none"
-Clause(c) == IF c.kind = "scan" THEN ScanClause(c) ELSE CheckClause(c)
+(* agreement (C12) judged against the recorded scan of the same configuration - no model of the exclusion list *)
+(* is involved, so it also covers lists outside the modelled pattern classes (negations)                       *)
+AgreeClause(c) ==
+  LET got == SeqSet(c.checked)  scanned == SeqSet(c.scanned) IN
+  CASE c.exc # "" -> "NormalReturn"
+    [] \E p \in scanned : IsPrefix(c.target, p) /\ p \notin got -> "CheckLooksAtEveryFileScanAnalyses"
+    [] \E p \in got : ~(IsPrefix(c.target, p) /\ p \in scanned) -> "CheckLooksOnlyAtFilesScanAnalyses"
+    [] ~c.same_as_scan -> "CheckListsWhatScanMeasures"
+    [] OTHER -> "none"
+Clause(c) == IF c.kind = "scan" THEN ScanClause(c) ELSE IF c.kind = "agree" THEN AgreeClause(c) ELSE CheckClause(c)
 
 TInit == i = 1 /\ pats = <<>> /\ src = <<>> /\ rootForm = "absolute" /\ target = "none" /\ sel = {}
 TNext == /\ i <= Len(Calls)
